@@ -100,6 +100,11 @@ def C03(ctx):
     big = ctx.export('FamilyR(p, 4)', pre_sample=300 if ctx.quick else None)
     ctx.res.cov['fault_points'] += sum(n_fault_points(c) for c in big)
     ctx.run(big, nontrivial=nt, runtime=True, switches=E_C)
+    ctx.rules.append('family T: the result type is a named type / an alias of each of 20 Go type kinds (zero value on the error path per kind), variadic injector; '
+                     'chains of 12 (quick) / 12 and 25 (thorough) cleanup+error providers (more than ten generated cleanup names) failing at the first, middle and last provider')
+    extra = ctx.export('FamilyT(p)') + ctx.export('FamilyChain(p, {12})' if ctx.quick else 'FamilyChain(p, {11, 12, 25})')
+    ctx.res.cov['fault_points'] += sum(n_fault_points(c) for c in extra)
+    ctx.run(extra, nontrivial=lambda c: True, runtime=True, switches=E_C)
     if not ctx.quick:
         b5 = ctx.export('FamilyR(p, 5)', pre_sample=1500)
         ctx.res.cov['fault_points'] += sum(n_fault_points(c) for c in b5)
@@ -117,6 +122,7 @@ def C04(ctx):
     ctx.run(only_success(cases), nontrivial=nt, runtime=True, switches=(False, False, True))
     big = ctx.export('FamilyR(p, 4)', pre_sample=500 if ctx.quick else None)
     ctx.run(only_success(big), nontrivial=nt, runtime=True, switches=(False, False, True))
+    ctx.run(only_success(ctx.export('FamilyChain(p, {12})' if ctx.quick else 'FamilyChain(p, {11, 12, 25})')), nontrivial=nt, runtime=True, switches=(False, False, True))
     if not ctx.quick:
         ctx.run(only_success(ctx.export('FamilyR(p, 5)', pre_sample=3000)), nontrivial=nt, runtime=True, switches=(False, False, True))
 
@@ -226,6 +232,21 @@ def C18(ctx):
     cli.run(ctx, (False, False, True, False), 40 if ctx.quick else 600, 14 if ctx.quick else 30)
 
 
+def C19(ctx):
+    import cli
+    ctx.rules.append('every program of families G (n<=3), K, Q, B, U run through gen AND check (same verdict, same diagnostic classes per package); '
+                     'wire show on the programs with named sets of families G, K, U, M compared with WireShow (included sets, outputs grouped by their external inputs, injector list); '
+                     'command histories of WireCli with CkCheck; non-trivial = rejected programs (check must fail too) and sets with at least two output groups')
+    nt = lambda c: verdict(c) == 'no' or any(len(s['groups']) >= 2 for s in (c.get('show') or {}).get('sets', []))
+    fams = [(G(3), 500), ('FamilyK(p, KTypes)', 250), ('FamilyQ(p, 3)', 472), ('FamilyB(p)', 250), ('FamilyU(p)', 100)]
+    for expr, k in fams:
+        cases = ctx.export(expr, extends='WireShow', caseop='CaseShow', pre_sample=(k if ctx.quick else None))
+        ctx.run(cases, nontrivial=nt, runtime=False, check=True, show=True)
+    m = ctx.export('FamilyM(p, {1, 2, 3})', extends='WireShow', caseop='CaseShow', pre_sample=150 if ctx.quick else 2500)
+    ctx.run(m, nontrivial=nt, runtime=False, check=True, show=True)
+    cli.run(ctx, (False, False, False, True), 25 if ctx.quick else 300, 10 if ctx.quick else 20)
+
+
 PROPS = {
     'C02': dict(fn=C02, level='model_checking'),
     'C03': dict(fn=C03, level='model_checking'),
@@ -240,6 +261,7 @@ PROPS = {
     'C12': dict(fn=C12, level='model_checking'),
     'C17': dict(fn=C17, level='model_checking'),
     'C18': dict(fn=C18, level='model_checking'),
+    'C19': dict(fn=C19, level='model_checking'),
 }
 
 
